@@ -299,15 +299,24 @@ def include_position(c, chk, lex):
     for p in ex.explore(fn):
         if p.end == 'ret' and p.retval == sym.C0:
             saved = set()
+            stale = None
             for e in p.events:
                 if e.kind == 'store' and e.addr[0] == 'fld' and sym.root_of(e.addr) == ('g', '@cfg_include_stack'):
                     saved.add(e.addr[3])
+                    # what is saved must be the position of the including source: the value cfg->line / cfg->filename
+                    # had on entry, not something this function has already overwritten
+                    if e.addr[3] in ('f1', 'f2', 'filename', 'line'):
+                        v = e.val
+                        want = 'filename' if e.addr[3] in ('f1', 'filename') else 'line'
+                        entry = v[0] == 'ld' and v[1][0] == 'fld' and v[1][3] == want and sym.root_of(v[1]) == ('p', 'cfg') and len(v) > 2 and v[2][0] == 0
+                        if not entry:
+                            stale = (want, v)
             line1 = any(e.field == 'line' and e.val == sym.C1 and sym.root_of(e.addr) == ('p', 'cfg') for e in p.events if e.kind == 'store')
             newname = any(e.field == 'filename' and sym.root_of(e.addr) == ('p', 'cfg') for e in p.events if e.kind == 'store')
-            pushed = (saved, line1, newname, p)
+            pushed = (saved, line1, newname, p, stale)
     if pushed is None:
         raise report.Broken('cfg_lexer_include() has no success path')
-    saved, line1, newname, p = pushed
+    saved, line1, newname, p, stale = pushed
     # pop side: the EOF action path that pops
     restored = set()
     popfields = set()
@@ -324,7 +333,10 @@ def include_position(c, chk, lex):
     names = {'f0': 'fp', 'f1': 'filename', 'f2': 'line'}
     sv = set(names.get(x, x) for x in saved)
     pf = set(names.get(x, x) for x in popfields)
-    if not ({'filename', 'line'} <= sv):
+    if stale:
+        chk.fail('R6.5', 'include-push-stale:%s' % stale[0], c.where(fn), 'include push saves %s as the %s of the suspended source instead of the value it had when include() was called: '
+                 'after the included file ends the including file continues at the wrong position' % (sym.render(stale[1]), stale[0]))
+    elif not ({'filename', 'line'} <= sv):
         chk.fail('R6.5', 'include-push', c.where(fn), 'include push saves %s of the suspended source, expected filename and line' % sorted(sv))
     elif not line1 or not newname:
         chk.fail('R6.5', 'include-push-reset', c.where(fn), 'include push does not restart the position (cfg->line = 1, cfg->filename = included file)')
